@@ -91,7 +91,9 @@ func VerifReq_Cooperative() {
 	pA := peer.ID("peerA")
 	var exts []graphsync.ExtensionData
 	userSkip := int64(0)
+	userSupplied := false
 	if verifrt.Param("USERSKIP", 0) == 1 && verifrt.Choose("user-skip-extension", 2) == 1 {
+		userSupplied = true
 		userSkip = verifrt.I64("user-skip")
 		verifrt.Assume(userSkip >= 0 && userSkip <= 8)
 		exts = append(exts, graphsync.ExtensionData{Name: graphsync.ExtensionsDoNotSendFirstBlocks, Data: donotsendfirstblocks.EncodeDoNotSendFirstBlocks(userSkip)})
@@ -152,7 +154,9 @@ func VerifReq_Cooperative() {
 				want = userSkip
 			}
 			verifrt.Assert(skip == want, "C24 requestor did not ask to skip exactly the blocks it had already loaded locally")
-			verifrt.Assert(has == (want > 0), "C24 do-not-send-first-blocks extension present for a zero count or absent for a non-zero count")
+			// an extension the caller supplied itself (even with value 0) is the
+			// caller's business and passes through
+			verifrt.Assert(has == (want > 0) || (userSupplied && has), "C24 do-not-send-first-blocks extension present for a zero count or absent for a non-zero count")
 			items, status := RefResponder(dag, func(i int) bool { return remote[i] }, skip)
 			// split into 1..MSGS messages
 			msgs := 1 + verifrt.Choose("messages", verifrt.Param("MSGS", 2))
